@@ -137,11 +137,14 @@ struct E4 : Engine {
 				ops.push_back(op); who.push_back({c,t}); ticks.push_back(op.kind == "tick" ? (int)std::max<int64_t>(0,std::min<int64_t>(o.geti("s"),100000)) : 0); }
 			// faults
 			struct Fault { int at; std::string kind; int s; int64_t after_bytes; bool armed = false, fired = false; uint64_t base = 0; int c = 0, heal = -1; bool healed = false; };
-			bool masked = !fault && !conc && plan.geti("masked"); int op_resets = 0; if(masked) cnt["masked_reset_runs"]++;
+			bool masked = !fault && !conc && plan.geti("masked"); int op_resets = 0; bool cur_readonly = true; uint64_t op_base_bytes = 0; if(masked) cnt["masked_reset_runs"]++;
 			std::vector<Fault> faults; const J &jf = plan.get("faults"); if(fault || masked) for(size_t i=0;i<jf.size() && i<8;i++){ Fault f; f.at = (int)std::max<int64_t>(0,jf.a[i].geti("at")); f.kind = jf.a[i].gets("kind"); f.s = (int)(jf.a[i].geti("s") % ns); f.after_bytes = std::max<int64_t>(0,jf.a[i].geti("after_bytes")); f.c = (int)(((jf.a[i].geti("c") % (int64_t)nc) + nc) % nc); f.heal = (int)jf.a[i].geti("heal",-1); faults.push_back(f); }
-			struct Resetter : simk::Actor { std::vector<Fault> *f; std::map<std::string,int64_t> *cnt; int *op_resets = nullptr;   /* masked mode: one reset per operation at most, none while an earlier one has not been noticed yet */
-				bool enabled() override { if(op_resets && (*op_resets > 0 || simk::unconsumed_resets())) return false; for(auto &x:*f) if(x.kind == "reset" && x.armed && !x.fired && simk::stats().bytes_rx + simk::stats().bytes_tx >= x.base + (uint64_t)x.after_bytes) return true; return false; }
-				void step() override { for(auto &x:*f) if(x.kind == "reset" && x.armed && !x.fired && simk::stats().bytes_rx + simk::stats().bytes_tx >= x.base + (uint64_t)x.after_bytes){ x.fired = true; if(simk::reset_accepted_stream(simk::fault_rng().next())){ (*cnt)["connection_resets"]++; if(op_resets){ (*op_resets)++; (*cnt)["masked_resets"]++; } } if(op_resets) break; } } const char *name() override { return "resetter"; } } resetter; resetter.f = &faults; resetter.cnt = &cnt; if(masked) resetter.op_resets = &op_resets; if(fault || masked) simk::add_actor(&resetter);
+			struct Resetter : simk::Actor { std::vector<Fault> *f; std::map<std::string,int64_t> *cnt; bool *cur_readonly = nullptr; uint64_t *op_base_bytes = nullptr; int *op_resets = nullptr;   /* masked mode: one reset per operation at most, none while an earlier one has not been noticed yet */
+				bool enabled() override { if(op_resets && (*op_resets > 0 || simk::unconsumed_resets())) return false;
+					// strict mode: a reset behind a (partly) sent store / rise / clear lets the server execute the request twice, the first copy at some later time (at-least-once);
+					// only resets that cannot do that are injected there: during read-only operations, or before the operation has put a byte on the wire
+					if(op_resets && !*cur_readonly && simk::stats().bytes_rx + simk::stats().bytes_tx != *op_base_bytes) return false; for(auto &x:*f) if(x.kind == "reset" && x.armed && !x.fired && simk::stats().bytes_rx + simk::stats().bytes_tx >= x.base + (uint64_t)x.after_bytes) return true; return false; }
+				void step() override { for(auto &x:*f) if(x.kind == "reset" && x.armed && !x.fired && simk::stats().bytes_rx + simk::stats().bytes_tx >= x.base + (uint64_t)x.after_bytes){ x.fired = true; if(simk::reset_accepted_stream(simk::fault_rng().next())){ (*cnt)["connection_resets"]++; if(op_resets){ (*op_resets)++; (*cnt)["masked_resets"]++; } } if(op_resets) break; } } const char *name() override { return "resetter"; } } resetter; resetter.f = &faults; resetter.cnt = &cnt; if(masked){ resetter.op_resets = &op_resets; resetter.cur_readonly = &cur_readonly; resetter.op_base_bytes = &op_base_bytes; } if(fault || masked) simk::add_actor(&resetter);
 			// worker threads (one per client thread)
 			std::vector<Mail> mail(nc*2); std::vector<std::thread> thr; std::vector<std::string> errs(ops.size());
 			std::vector<std::vector<size_t>> mine(nc*2); for(size_t i=0;i<ops.size();i++) mine[who[i].first*2 + who[i].second].push_back(i);
@@ -164,9 +167,11 @@ struct E4 : Engine {
 					if(op.kind == "tick"){ simk::advance_us(ticks[i]*1000000LL); cnt["ticks"]++; continue; }
 					int64_t tnow = simk::now_us()/1000000;
 					op_resets = simk::unconsumed_resets() ? 1 : 0;   // a reset injected while the connection was idle is noticed by this operation: it uses up the operation's budget
+					cur_readonly = op.kind == "fetch" || op.kind == "stats"; op_base_bytes = simk::stats().bytes_rx + simk::stats().bytes_tx; int64_t resets_before = cnt["connection_resets"]; bool pending_before = simk::unconsumed_resets() > 0;
 					mail[w].op = &op; mail[w].done = false; mail[w].has = true;
 					bool fin = simk::block([&,w]{ return mail[w].done; },simk::now_us() + 600LL*1000000,"wait-op");
 					if(!fin){ res.fail("operation-hangs","operation " + op.str() + " did not complete within 600 simulated seconds"); break; }
+					if(fault && op.kind == "store" && (cnt["connection_resets"] > resets_before || pending_before)){ zombies[op.key].insert(op.val); cnt["stores_retried_after_reset"]++; }
 					cnt["ops"]++; std::string where = "op#" + std::to_string(i) + " client " + std::to_string(who[i].first) + (nodes[who[i].first].l1 >= 0 ? " (L1 limit " + std::to_string(nodes[who[i].first].l1) + ")" : " (no L1)") + " " + op.str();
 					if(!errs[i].empty()){ cnt["ops_failed"]++; if(!fault){ res.fail("operation-failed",where + " failed without any fault: " + errs[i]); break; }
 						// an operation that failed may or may not have taken effect on some servers
@@ -183,7 +188,7 @@ struct E4 : Engine {
 					else if(op.kind == "fetch"){ cnt[op.hit ? "fetch_hit" : "fetch_miss"]++;
 						const CacheEntry *e = nullptr; bool mhit = model.fetch(op.key,tnow,&e);
 						if(fault){
-							if(op.hit){ bool dead = false; for(auto &d:superseded[op.key]) if(d == op.rval && (op.how & 3) != 3) dead = true; bool cur = mhit && e->val == op.rval; bool maybe = unsure[op.key].count(op.rval);
+							if(op.hit){ bool dead = false; for(auto &d:superseded[op.key]) if(d == op.rval && (op.how & 3) != 3) dead = true; bool cur = mhit && e->val == op.rval; bool maybe = unsure[op.key].count(op.rval); if(!getenv("E4_NO_ZOMBIE") && (op.how & 3) != 3 && !cur && !maybe && zombies[op.key].count(op.rval)){ maybe = true; cnt["delayed_duplicate_store_seen"]++; if(getenv("E4_DEBUG_ZOMBIE")) fprintf(stderr,"ZOMBIE %s dead=%d\n",where.c_str(),(int)dead); }
 								if((op.how & 3) != 3 && !cur && !maybe){ res.fail(dead ? "stale-value-served" : "unknown-value-served",where + ": this value was " + (dead ? "replaced, invalidated or lost before the fetch began" : "never stored under this key") + (mhit ? "; current value is " + e->val.substr(0,30) : "; the key currently has no value")); } }
 							continue; }
 						if(op.hit != mhit){ res.fail(op.hit ? "stale-value-served" : "live-entry-missed",where + " but the single-copy model says " + (mhit ? "HIT " + e->val.substr(0,30) : "MISS")); break; }
@@ -224,6 +229,9 @@ struct E4 : Engine {
 		return res;
 	}
 	std::map<std::string,std::set<std::string>> unsure;   // fault mode: values whose store failed half-way (may or may not be there)
+	// fault mode: values of stores that met a connection reset and were retried. The first copy of the request may have reached the server before the reset and be
+	// executed LATER than the retry - after stores of other nodes, too: reconnect-and-retry gives at-least-once delivery. Such a value may re-appear for the rest of the run.
+	std::map<std::string,std::set<std::string>> zombies;
 	bool r_nonempty_marker = false;
 };
 }
